@@ -208,7 +208,6 @@ func msgLinesC(prefix string, file int, m *descriptorpb.DescriptorProto, cm comm
 		isOneof = mo.GetOneof() != nil
 	}
 	out := []line{{Tag: 1, Strs: []string{full, psmEntity}, Nums: []uint64{uint64(file), psmPart, b2n(isOneof)}}}
-	out = append(out, cm.line(path)...)
 	for i, f := range m.Field {
 		fl := fieldLines(f)
 		out = append(out, fl[0])
@@ -219,12 +218,10 @@ func msgLinesC(prefix string, file int, m *descriptorpb.DescriptorProto, cm comm
 		out = append(out, msgLinesC(full, file, n, cm, sub(path, 3, int32(i)))...)
 	}
 	// enums nested in the message (inline `enum { ... }` fields), after its nested messages
-	for i, e := range m.EnumType {
+	for _, e := range m.EnumType {
 		out = append(out, line{Tag: 4, Strs: []string{full + "." + e.GetName()}, Nums: []uint64{}})
-		out = append(out, cm.line(sub(path, 4, int32(i)))...)
-		for j, v := range e.Value {
+		for _, v := range e.Value {
 			out = append(out, line{Tag: 5, Strs: []string{v.GetName()}, Nums: []uint64{uint64(v.GetNumber())}})
-			out = append(out, cm.line(sub(path, 4, int32(i), 2, int32(j)))...)
 		}
 	}
 	return out
@@ -267,8 +264,7 @@ func svcLinesC(pkgName string, file int, s *descriptorpb.ServiceDescriptorProto,
 		}
 	}
 	out := []line{l}
-	out = append(out, cm.line(loc)...)
-	for mi, m := range s.Method {
+	for _, m := range s.Method {
 		verb, path, sq, body := uint64(0), "", uint64(0), ""
 		var mopts proto.Message
 		if m.Options != nil {
@@ -304,7 +300,6 @@ func svcLinesC(pkgName string, file int, s *descriptorpb.ServiceDescriptorProto,
 		out = append(out, line{Tag: 7,
 			Strs: []string{m.GetName(), strings.TrimPrefix(m.GetInputType(), "."), strings.TrimPrefix(m.GetOutputType(), "."), path, body},
 			Nums: []uint64{verb, sq}})
-		out = append(out, cm.line(sub(loc, 2, int32(mi)))...)
 	}
 	return out
 }
@@ -332,16 +327,55 @@ func dumpFiles(pkg string, files []protoreflect.FileDescriptor) (*dumped, error)
 		for i, m := range f.MessageType {
 			d.Lines = append(d.Lines, msgLinesC(f.GetPackage(), idx, m, cm, []int32{4, int32(i)})...)
 		}
-		for i, e := range f.EnumType {
+		for _, e := range f.EnumType {
 			d.Lines = append(d.Lines, line{Tag: 4, Strs: []string{f.GetPackage() + "." + e.GetName()}, Nums: []uint64{}})
-			d.Lines = append(d.Lines, cm.line([]int32{5, int32(i)})...)
-			for j, v := range e.Value {
+			for _, v := range e.Value {
 				d.Lines = append(d.Lines, line{Tag: 5, Strs: []string{v.GetName()}, Nums: []uint64{uint64(v.GetNumber())}})
-				d.Lines = append(d.Lines, cm.line([]int32{5, int32(i), 2, int32(j)})...)
 			}
 		}
 		for i, s := range f.Service {
 			d.Lines = append(d.Lines, svcLinesC(f.GetPackage(), idx, s, cm, []int32{6, int32(i)})...)
+		}
+	}
+	// the comments of the elements that are not fields (tag 16: [element full name; comment]), after
+	// all structural lines, in descriptor order: per file the messages (pre-order: the message, its
+	// nested messages, its nested enums and their values), the enums with their values, the services
+	// with their methods
+	for _, f := range d.Files {
+		cm := fileComments(f)
+		note := func(name string, path []int32) {
+			if t, ok := cm[pathKey(path)]; ok && t != "" {
+				d.Lines = append(d.Lines, line{Tag: 16, Strs: []string{name, t}, Nums: []uint64{}})
+			}
+		}
+		var walkMsg func(prefix string, m *descriptorpb.DescriptorProto, path []int32)
+		walkEnum := func(prefix string, e *descriptorpb.EnumDescriptorProto, path []int32) {
+			note(prefix+"."+e.GetName(), path)
+			for j, v := range e.Value {
+				note(prefix+"."+e.GetName()+"."+v.GetName(), sub(path, 2, int32(j)))
+			}
+		}
+		walkMsg = func(prefix string, m *descriptorpb.DescriptorProto, path []int32) {
+			full := prefix + "." + m.GetName()
+			note(full, path)
+			for i, n := range m.NestedType {
+				walkMsg(full, n, sub(path, 3, int32(i)))
+			}
+			for i, e := range m.EnumType {
+				walkEnum(full, e, sub(path, 4, int32(i)))
+			}
+		}
+		for i, m := range f.MessageType {
+			walkMsg(f.GetPackage(), m, []int32{4, int32(i)})
+		}
+		for i, e := range f.EnumType {
+			walkEnum(f.GetPackage(), e, []int32{5, int32(i)})
+		}
+		for i, sv := range f.Service {
+			note(f.GetPackage()+"."+sv.GetName(), []int32{6, int32(i)})
+			for j, m := range sv.Method {
+				note(f.GetPackage()+"."+sv.GetName()+"."+m.GetName(), []int32{6, int32(i), 2, int32(j)})
+			}
 		}
 	}
 	return d, nil
